@@ -57,6 +57,24 @@ func ServeIfWorker(t *testing.T, reg Registry) {
 	})
 }
 
+// ServeJob returns a dispatcher for checks whose workers serve several kinds of case: it answers (result, true) when
+// the input is a schedule job for a harness of reg, else (nil, false).
+func ServeJob(t *testing.T, reg Registry) func(in json.RawMessage) (any, bool) {
+	return func(in json.RawMessage) (any, bool) {
+		var j Job
+		if err := json.Unmarshal(in, &j); err != nil || j.Harness == "" {
+			return nil, false
+		}
+		mk, ok := reg[j.Harness]
+		if !ok {
+			return nil, false
+		}
+		var st Stats
+		Explore(t, mk(j.Config), j.Prefix, j.Bound, time.Duration(j.Budget)*time.Second, j.MaxExec, &st)
+		return toResult(&st), true
+	}
+}
+
 // ToResult converts exploration stats to the worker result shape.
 func ToResult(st *Stats) JobResult { return toResult(st) }
 
